@@ -9,7 +9,16 @@ TABLES = ['CodecsT', 'HeadersT', 'PercentT']
 COQ_HEADER = 'From Httoop Require Import Lib.Bytes Lib.Variant Gen.CodecsT Model.Headers Model.Codecs Corr.C14.'
 COQ_CHECK = 'check'
 CORR_VO = 'Corr/C14.vo'
-RULE = ('T2: every codec of the implementation on generated values. Evaluated by the Gallina model (vm_compute) and the implementation on the same '
+RULE = ('Input classes of the third wave, all checked by the oracle on the real code, the coded-wire ones also by the model (CBodyDec on the coded octets): the coded octets of a message '
+	'(one stream per piece as the library composes, Body.compress(), CPython at levels 0/6/9, a gzip member with file name and time stamp, several members) framed by the harness with Content-Length '
+	'or cut into chunks of 1, 2, 5, 16, 17, 512, 1024, 4096 octets, at the first / last octet and at random places, chunk extensions, upper-case and padded chunk sizes, trailers, header names in three letter '
+	'cases, other field orders, a folded coding name, received at once or in pieces, by both machines; several coded and uncoded messages on one machine; Body / part / message objects used twice, read in '
+	'between, changed through every public way and compared with a fresh object; decomposed, compatibility and astral code points and degenerate values (empty, blanks, separators, unbalanced quotes) in '
+	'every text position, part content, field value and body; lengths 11..13, 75..77, 255..257, 1023..1025, 4095..4097, 8190..8193, 65535..65537 of texts, JSON strings / lists / nesting, form names / values / '
+	'pair counts, part contents / counts / field names / field values, boundaries (1..201), request targets, reason phrases, bodies; every name of HEADER, CODECS, REASONS, the method tables and the content-coding '
+	'table (read from the tree at run time) in three letter cases as field of a part and of an embedded message, as Content-Type of a part, as media type of the body; charset aliases; multipart bodies and '
+	'embedded messages written by the harness with other letter cases, orders and spacing. '
+	'T2: every codec of the implementation on generated values. Evaluated by the Gallina model (vm_compute) and the implementation on the same '
 	'inputs: Body piece sizes, per-piece coding (stream decomposition of bytes(Body)), GZip/Deflate.decode and Body.decompress on valid, multi-stream, '
 	'truncated and corrupted input (CPython zlib/gzip answers as recorded tables), the whole wire path (Composed{Request,Response} -> state machine) for '
 	'every single octet, sizes around 4096/8192 and incompressible blocks, the charset step of text/plain and json, Headers.compose, Multipart.encode/decode '
@@ -329,8 +338,8 @@ def _http_msg(rng):
 def gen_cases(rng, tier):
 	cases = _gen_cases(rng, tier)
 	# large literals must not share a correspondence shard (Coq's stack): spread them between the small cases
-	bigs = [c for c in cases if len(c.get('d', '')) > 6000]
-	small = [c for c in cases if len(c.get('d', '')) <= 6000]
+	bigs = [c for c in cases if _weight(c) > 6000]
+	small = [c for c in cases if _weight(c) <= 6000]
 	step = max(1, len(small) // (len(bigs) + 1))
 	out = []
 	for i, c in enumerate(small):
@@ -338,6 +347,15 @@ def gen_cases(rng, tier):
 			out.append(bigs.pop())
 		out.append(c)
 	return out + bigs
+
+
+def _weight(c):
+	"""size of the octet strings of a case that become Coq literals"""
+	if c['k'] in ('http_rt', 'mp_enc'):
+		return len(c.get('body', '')) + 2 * len(c.get('uri', '')) + sum(len(v) + 2 * len(k) for k, v in c.get('hs', [])) + sum(len(content) + sum(len(v) for _, v in hs) for hs, content in c.get('ps', []))
+	if c['k'] in ('mp_rt', 'plain_rt', 'json_rt', 'form_rt', 'state', 'wire_seq'):
+		return 0    # oracle only
+	return len(c.get('d', ''))
 
 
 def _gen_cases(rng, tier):
@@ -486,6 +504,7 @@ def _gen_cases(rng, tier):
 				out = _mutate(rng, out)
 		cases.append({'k': 'http_dec', 'd': out.hex()})
 	cases.extend(_special_cases(rng, big))
+	cases.extend(_class_cases(rng, big))
 	return cases
 
 
@@ -567,6 +586,319 @@ def _special_cases(rng, big):
 	return cases
 
 
+# ------------------------------------------------------------------ input classes (third wave of seeded changes)
+# (1) statefulness, (2) normalisation forms / look-alikes, (3) lengths at limits, (4) every registry name in several letter cases,
+# (5) degenerate values, (6) independent re-encoding of received data.  Registries are read from the tree at run time.
+# decomposed / precomposed pairs, singleton decompositions (angstrom, ohm, kelvin), Hangul jamo / syllables, compatibility ideographs, ligatures, fullwidth,
+# case-folding specials, reordrant combining marks, astral characters: all written as escapes, the comparison is code point for code point
+NORM = [
+	'\u0065\u0301', '\u00e9', '\u0041\u030a', '\u00c5', '\u212b', '\u2126', '\u03a9', '\u212a', '\u004b', '\u1112\u1161\u11ab', '\ud55c', '\uf900',
+	'\u8c48', '\U0002f800', '\u4e3d', '\ufb01', '\uff21', '\u2460', '\u00b5', '\u03bc', '\u0130', '\u0069\u0307', '\u1e9e', '\u00df',
+	'\u017f', '\u1e9b\u0323', '\u0344', '\u0958', '\U0001d400', '\U0001f1e9\U0001f1ea', '\u0041\u0301\u0328', '\u0041\u0328\u0301', '\u00a8', '\u2024', '\u2002', '\u3000',
+	'\u01c4', '\u004e\u0303\u0301', '\u1100\u1161', '\uac01', '\u0f73', '\u00a0\u0020\u00a0', '\u1e0a\u0323', '\u0044\u0323\u0307', '\u003b\u037e',
+]
+DEGEN = ['', ' ', '  ', '\t', ' \t ', ',', ',,', ';', ';;', '=', '==', '&', '&&', '&=&', '=&=', '"', '""', '"a', 'a"', "'", "''", '\\', '\\"', '%', '%%', '%2', '%zz', '+', '++', '#', '?',
+	'[]', '{}', '[', '{', ':', '::', 'null', 'true', '0', '-0', '1e5', 'NaN', 'Infinity', '\r\n', '\r\n\r\n', '--', '----', ', ', '; ', ' a', 'a ', ' a ', 'a  b']
+LENS = [11, 12, 13, 75, 76, 77, 255, 256, 257, 1023, 1024, 1025, 4095, 4096, 4097, 8190, 8191, 8192, 8193, 65535, 65536, 65537]
+CS_ALIASES = ['utf8', 'UTF8', 'Utf-8', 'utf_8', 'U8', 'latin-1', 'Latin1', 'ISO-8859-1', 'iso8859_1', 'L1', 'cp819', 'us-ascii', 'US-ASCII', 'ASCII', '646', 'UTF-16', 'UTF-16LE', 'utf_16_be',
+	'UTF-32', 'cp1252', 'utf-7', 'utf-8-sig', 'koi8-r', 'shift_jis', 'gb18030']
+HDR_VAL = {
+	'Content-Length': b'2', 'Content-Type': b'text/plain; charset=UTF-8', 'Authorization': b'Basic QWxhZGRpbjpvcGVuIHNlc2FtZQ==', 'Proxy-Authorization': b'Basic QWxhZGRpbjpvcGVuIHNlc2FtZQ==',
+	'Cookie': b'session=31d4d96e407aad42; lang=en', 'Set-Cookie': b'session=31d4d96e407aad42; Path=/; HttpOnly', 'Www-Authenticate': b'Basic realm="simple"',
+	'Proxy-Authenticate': b'Basic realm="proxy"', 'Host': b'www.example.com', 'Date': b'Wed, 30 Sep 2026 10:00:00 GMT', 'Content-Disposition': b'form-data; name="file"; filename="a b.txt"',
+	'Content-Encoding': b'gzip', 'Accept': b'text/html, */*;q=0.1', 'Content-Range': b'bytes 0-2/9', 'Etag': b'"xyzzy"', 'Authentication-Info': b'nextnonce="abc"',
+	'Content-Md5': b'Q2hlY2sgSW50ZWdyaXR5IQ==', 'Via': b'1.1 proxy.example.net', 'Forwarded': b'for=192.0.2.43', 'Cache-Control': b'no-cache, max-age=0', 'Range': b'bytes=0-2',
+}
+LIST_FIELDS = ('Set-Cookie', 'Www-Authenticate', 'Proxy-Authenticate')
+
+
+def _cases3(name):
+	return list(dict.fromkeys([name, name.lower(), name.upper()]))
+
+
+def _registry():
+	"""the tables the code consults, read from the tree the check runs against"""
+	from httoop.codecs import CODECS
+	from httoop.header.element import HEADER
+	from httoop.header.messaging import ContentEncoding
+	from httoop.messages.method import Method
+	from httoop.status import REASONS
+	codings = {}
+	for name, mime in ContentEncoding.CODECS.items():
+		if mime in (MIME[GZ], MIME[ZL]):
+			codings[name] = GZ if mime == MIME[GZ] else ZL
+	methods = list(dict.fromkeys(list(Method.safe_methods) + list(Method.idempotent_methods) + METHODS + ['TRACE', 'get', 'Get', 'M-SEARCH', 'X$_.-9']))   # not CONNECT: its authority-form target is the subject of C10
+	return {'headers': sorted(HEADER), 'mimes': sorted(CODECS), 'codings': codings, 'methods': methods,
+		'statuses': sorted((code, r[0]) for code, r in REASONS.items())}
+
+
+def _clean(rng, n, bd=None, mode='random8'):
+	out = _ascii_block(rng, n, mode)
+	if bd is not None:
+		d = b'--' + bd
+		while d in out:
+			out = out.replace(d, b'-+' + bd[:-1] if len(bd) > 1 else b'+' * len(d))
+	return out
+
+
+def _req(hs, body=b'', method='GET', uri='/', **kw):
+	return dict({'k': 'http_rt', 'req': True, 'method': method, 'uri': uri, 'proto': '1.1', 'hs': hs, 'body': body.hex()}, **kw)
+
+
+def _resp(hs, body=b'', status=200, reason='OK', **kw):
+	return dict({'k': 'http_rt', 'req': False, 'status': status, 'reason': reason, 'proto': '1.1', 'hs': hs, 'body': body.hex()}, **kw)
+
+
+def _mp(ps, bd=b'asdf', sub='mixed', **kw):
+	return dict({'k': 'mp_rt', 'sub': sub, 'bd': bd.hex(), 'ps': [[hs, content.hex()] for hs, content in ps]}, **kw)
+
+
+def _h(*pairs):
+	return [[k, v.hex()] for k, v in pairs]
+
+
+def _chunk_sizes(rng, n):
+	"""ways to cut n coded octets into chunks: uniform small and large sizes, one octet, a cut directly behind the first / in front of the last octet, random cuts"""
+	out = [1, 2, 5, 16, 17, 512, 1024, 4096, [1, max(n - 1, 1)], [max(n - 1, 1), 1], [max(n // 2, 1)], [10, 8, max(n - 26, 1), 8], [rng.randint(1, max(n, 1)) for _ in range(4)]]
+	return [x for x in out if not isinstance(x, int) or x < n or x == 1]
+
+
+BIN = b'\x00\xff\r\n\r\n--\x1f\x8b\x78\x9ca\r'
+
+
+def _class_cases(rng, big):
+	reg = _registry()
+	cases = []
+	# ---------------- (6)+(3) the coded octets of a message framed the way another sender would frame them
+	import gzip
+	import zlib
+	datas = [bytes([c]) for c in rng.sample(range(256), 12)] + [b'', b'hello world', b'a,b\r\nc,d\r\n', bytes(range(256))]
+	datas += [_ascii_block(rng, n, 'text') for n in (11, 12, 75, 76, 255, 256, 1023, 1024, 4095, 4096, 4097, 8190, 8191, 8192)]
+	datas += [_ascii_block(rng, n, 'random8') for n in (300, 4097, 8193)]
+	for name, fam in sorted(reg['codings'].items()):
+		for d in datas:
+			encs = ['py6', 'compress', 'lib'] if len(d) > 4096 else ['py6', 'lib']
+			if len(d) in (1, 11, 4096, 4097):
+				encs += ['py0', 'py9', 'named', 'multi']
+			for enc in encs:
+				n = len(_payload({'c': fam, 'd': d.hex(), 'enc': enc}))
+				frames = [['cl']] + [['ch', x] for x in _chunk_sizes(rng, n)]
+				frames = frames if (len(d) in (1, 256, 4097) and enc in ('py6', 'lib')) else rng.sample(frames, 3)
+				for fr in frames:
+					cases.append({'k': 'wire_rf', 'c': fam, 'cn': name, 'cs': 'UTF-8', 'req': rng.random() < 0.5, 'd': d.hex(), 'enc': enc, 'fr': fr, 'hv': rng.randrange(6),
+						'ext': rng.random() < 0.2, 'fmt': rng.choice(['%x', '%x', '%X', '%04x']), 'tr': rng.random() < 0.15, 'feed': rng.choice([0, 0, 0, 1, 7, 1000])})
+		# every header spelling with every framing once, charsets that are not ASCII-transparent, large contents (oracle only)
+		d = b'caf\xc3\xa9 \xff\xfe\r\n' * 3
+		for hv in range(6):
+			for fr in (['cl'], ['ch', 5], ['ch', [1000]]):
+				cases.append({'k': 'wire_rf', 'c': fam, 'cn': name, 'cs': rng.choice(['UTF-8', 'ISO8859-1', 'utf-16', 'utf-16-be', 'foo']), 'req': hv % 2 == 0, 'd': d.hex(), 'enc': 'py6', 'fr': fr, 'hv': hv,
+					'ext': False, 'fmt': '%x', 'tr': False, 'feed': 0})
+		for n in (65535, 65536, 65537):
+			for enc, fr in (('py6', ['ch', 1024]), ('lib', ['ch', 4000]), ('compress', ['cl']), ('lib', ['ch', [70000]])):
+				cases.append({'k': 'wire_rf', 'c': fam, 'cn': name, 'cs': 'UTF-8', 'req': n % 2 == 0, 'd': _ascii_block(rng, n, 'random8' if enc == 'py6' else 'text').hex(), 'enc': enc, 'fr': fr, 'hv': 0,
+					'ext': False, 'fmt': '%x', 'tr': False, 'feed': rng.choice([0, 1000])})
+	# ---------------- (1) statefulness: several messages on one machine; objects used twice and modified in between
+	for _ in range(60 if big else 24):
+		msgs = []
+		for _ in range(rng.randint(2, 4)):
+			d = rng.choice([b'', b'x', b'hello\r\n', _small_data(rng), _ascii_block(rng, 5000, 'text')])
+			msgs.append({'c': rng.choice([GZ, ZL, None]), 'd': d.hex(), 'enc': rng.choice(['py6', 'lib']), 'fr': rng.choice([['cl'], ['ch', 7], ['ch', [3000]]])})
+		cases.append({'k': 'wire_seq', 'req': rng.random() < 0.5, 'msgs': msgs, 'feed': rng.choice(['all', 'each', 11])})
+	for coding in (GZ, ZL):
+		for d in [b'', b'\r', b'a', b'hello world\r\n', bytes(range(256)), _ascii_block(rng, 4097, 'text'), _ascii_block(rng, 9000, 'random8')]:
+			cases.append({'k': 'state', 's': 'body', 'c': coding, 'd': d.hex(), 'd2': _small_data(rng).hex()})
+			cases.append({'k': 'state', 's': 'shared', 'c': coding, 'd': d.hex()})
+	for _ in range(40 if big else 12):
+		cases.append({'k': 'state', 's': 'codec', 'v1': _jval(rng), 'v2': _jval(rng), 't1': rng.choice(NORM + SPECIAL[:3]) + _text(rng, 'UTF-8'), 't2': _text(rng, 'ISO8859-1'),
+			'ps': [[_ftext(rng, 1, 4, True) or 'n', _ftext(rng, 0, 4, True)] for _ in range(rng.randint(0, 3))]})
+	for _ in range(60 if big else 20):
+		bd, bd2 = _boundary(rng, safe=True), _boundary(rng, safe=True)
+		ps = [[_headers(rng, True), _clean(rng, rng.randint(0, 30)).hex()] for _ in range(rng.randint(1, 3))]
+		# neither delimiter in a content or in a field value (the side condition of the statement)
+		ps = [[[h for h in hs if b'--' + bd not in bytes.fromhex(h[1]) and b'--' + bd2 not in bytes.fromhex(h[1])], c] for hs, c in ps if b'--' + bd not in bytes.fromhex(c) and b'--' + bd2 not in bytes.fromhex(c)] or [[[], '']]
+		cases.append({'k': 'state', 's': 'mp', 'bd': bd.hex(), 'bd2': bd2.hex(), 'ps': ps, 'newc': _clean(rng, rng.randint(0, 20)).replace(b'--', b'-').hex()})
+	for _ in range(60 if big else 24):
+		m = _http_msg(rng)
+		cases.append({'k': 'state', 's': 'http', 'm': m, 'drop': rng.random() < 0.5, 'newbody': rng.choice([b'', b'changed', b'\r\n\r\n', BIN]).hex(),
+			'add': rng.choice([['X-Added', b'1'.hex()], ['Cookie', b'a=b'.hex()], ['Authorization', b'Basic QQ=='.hex()], ['Content-Language', b'de'.hex()]])})
+	# ---------------- (2) normalisation forms and look-alikes in every text position; (5) degenerate values
+	for s in NORM:
+		for t in _placements(s)[:3]:
+			for cs in ('UTF-8', None, 'utf-16', 'ISO8859-1'):
+				cases.append({'k': 'plain_rt', 'cs': cs, 't': t})
+			cases.append({'k': 'json_rt', 'cs': None, 'v': t})
+			cases.append({'k': 'json_rt', 'cs': 'UTF-8', 'v': {t: [t, {'k': t}]}})
+			cases.append({'k': 'form_rt', 'cs': 'UTF-8', 'ps': [['n', t], [t, 'v'], [t, t]]})
+			if all(ord(ch) < 256 for ch in t):
+				cases.append({'k': 'form_rt', 'cs': None, 'ps': [[t, t]]})
+		d = s.encode('utf-8')
+		for cs in TCS:
+			cases.append({'k': 'plain_dec', 'cs': cs, 'd': (d + b'a' + d).hex()})
+		cases.append({'k': 'json_dec', 'cs': 'UTF-8', 'd': (b'"' + d + b'"').hex()})
+		# the same text as multipart content, as message body, as header value (octets: must come back octet for octet)
+		cases.append(_mp([(_h(('Content-Type', b'text/plain; charset=UTF-8'), ('X-Custom', d)), d), (_h(('Content-Disposition', b'form-data; name="' + d + b'"')), d + d)]))
+		cases.append(_req(_h(('X-Custom', d), ('Content-Type', b'text/plain; charset=UTF-8')), d, 'POST'))
+	for t in DEGEN:
+		for cs in ('UTF-8', None, 'ISO8859-1', 'utf-16'):
+			cases.append({'k': 'plain_rt', 'cs': cs, 't': t})
+		cases.append({'k': 'json_rt', 'cs': None, 'v': t})
+		cases.append({'k': 'json_rt', 'cs': None, 'v': {t: [t, [], {}, {t: {}}]}})
+		for cs in ('UTF-8', None):
+			cases.append({'k': 'form_rt', 'cs': cs, 'ps': [['n', t]]})
+			cases.append({'k': 'form_rt', 'cs': cs, 'ps': [['n', t], ['m', t], ['n', t]]})
+			if t:
+				cases.append({'k': 'form_rt', 'cs': cs, 'ps': [[t, ''], [t, 'v'], [t, t]]})
+		v = t.encode('ascii')
+		if v == v.strip() and b'\r' not in v:    # optional blanks around a field value are not part of it; a line end is not a value
+			cases.append(_mp([(_h(('X-Custom', v)), v), (_h(('Content-Id', v), ('X-Another-One', v)), v + b'\r\n')]))
+			cases.append(_resp(_h(('X-Custom', v), ('Server', v or b's')), v))
+		else:
+			cases.append(_mp([(_h(('X-Custom', b'v')), v)]))
+			cases.append(_resp(_h(('X-Custom', b'v')), v))
+	for v in ([], {}, [[]], [{}], {'': ''}, {'': {}}, [[], []], [None], [[[[[[[[[[]]]]]]]]]], {'a': {'a': {'a': {}}}}, [''], {'': ['']}, [0, -0.0, 0.0], [True, 1, 1.0], [False, 0], ['1', 1], [None, 'null']):
+		for cs in (None, 'UTF-8'):
+			cases.append({'k': 'json_rt', 'cs': cs, 'v': v})
+	for ps in ([], [['a', '']], [['a', ''], ['b', '']], [['a', '1'], ['a', '2']], [['a', ''], ['a', ''], ['a', '']], [['a', '='], ['=', 'a']], [['&', '&'], ['&', '&']]):
+		for cs in ('UTF-8', None, 'ISO8859-1'):
+			cases.append({'k': 'form_rt', 'cs': cs, 'ps': ps})
+	for content in (b'', b' ', b'\r\n', b'\r\n\r\n', b'--', b'----', b'-', b'\r\n--', b'--\r\n', b'\r', b'\n', b'\n\n', b'\r\r', b'\r\n\r\n\r\n', b'--asd', b'-asdf', b'--asd\r\nf', b'\r\n-- asdf', b'asdf--', b'\x00', b' \t '):
+		cases.append(_mp([([], content)]))
+		cases.append(_mp([(_h(('Content-Type', b'application/octet-stream')), content), ([], content), (_h(('X-Custom', b'1')), content)], sub='form-data'))
+		cases.append(_req([], content, 'POST'))
+		cases.append(_resp(_h(('Server', b'httoop')), content))
+	# (request targets the URI parser rewrites, e.g. escapes of octets below 0x10, are the subject of C11 / C12 / C13)
+	for uri in ('/?', '/#', '//', '/?&&', '/;', '/;;', '/?=', '/?a=&b=', '/a//b', '/.', '/..', '/%20', '/%2F%2f', '/?%26=%3D', '/' + 'a' * 10 + '?' + '&' * 5):
+		cases.append(_req(_h(('Host', b'h')), b'', 'GET', uri))
+	# ---------------- (3) lengths at and around limits in every position that has a length
+	for n in LENS:
+		thorough_only = n > 8192 and not big
+		for cs in ('UTF-8', 'utf-16'):
+			cases.append({'k': 'plain_rt', 'cs': cs, 't': 'a' * (n - 1) + '\u00e9'})
+		cases.append({'k': 'plain_rt', 'cs': 'UTF-8', 't': '\U0001f600' * (n // 4) + 'a' * (n % 4)})
+		cases.append({'k': 'json_rt', 'cs': None, 'v': 'a' * (n - 1) + '\u20ac'})
+		cases.append({'k': 'json_rt', 'cs': None, 'v': {'k' * n: 'v'}})
+		cases.append({'k': 'form_rt', 'cs': 'UTF-8', 'ps': [['n', 'a' * (n - 1) + ' ']]})
+		cases.append({'k': 'form_rt', 'cs': 'UTF-8', 'ps': [['n' * n, 'v'], ['m', '\u20ac' * (n // 3)]]})
+		if n <= 4097:
+			cases.append({'k': 'json_rt', 'cs': None, 'v': list(range(n))})
+			cases.append({'k': 'form_rt', 'cs': None, 'ps': [['k%d' % i, str(i)] for i in range(n)]})
+		if n <= 256:
+			v = []
+			for _ in range(n):
+				v = [v]
+			cases.append({'k': 'json_rt', 'cs': None, 'v': v})
+			cases.append(_mp([(_h(('X-Custom', b'%d' % i)), b'%d' % i) for i in range(n)]))
+			cases.append(_mp([(_h(('X-' + 'a' * n, b'v')), b'c')]))
+			cases.append(_resp(_h(('X-' + 'a' * n, b'v')), b'c', 200, 'r' * n))
+			cases.append(_req([['X-H%d' % i, b'v'.hex()] for i in range(n)], b'c', 'POST'))
+		for coding in (GZ, ZL):
+			if n < 4095 or 8190 <= n <= 8191 or (n > 8192 and not thorough_only) or (n == 65536):
+				d = _ascii_block(rng, n, 'text' if n < 60000 else 'random8')
+				cases.append({'k': 'body_rt', 'c': coding, 'cs': 'UTF-8', 'd': d.hex()})
+				cases.append({'k': 'wire', 'c': coding, 'cs': 'UTF-8', 'req': n % 2 == 0, 'd': d.hex()})
+		# multipart: content, field value; message/http: body, field value, request target
+		v = _ascii_block(rng, n, 'random7').replace(b'\r', b'r').replace(b'\n', b'n').replace(b'\x00', b'0').strip() or b'v'
+		v = (v + b'x' * n)[:n - 1] + b'z'
+		cases.append(_mp([(_h(('X-Custom', b'1')), _clean(rng, n, b'asdf')), ([], _clean(rng, n - 1, b'asdf') + b'\r')]))
+		cases.append(_mp([(_h(('X-Custom', v), ('Content-Type', b'text/plain')), b'c')]))
+		cases.append(_resp(_h(('X-Custom', v)), b'c'))
+		cases.append(_resp(_h(('X-Custom', b'v')), _clean(rng, n)))
+		cases.append(_req(_h(('Host', b'h')), b'', 'GET', '/' + 'a' * (n - 1)))
+		cases.append(_req(_h(('Host', b'h'), ('Cookie', b'k=' + v)), _clean(rng, n, None, 'text'), 'POST', '/?' + 'q' * (n - 2)))
+	for n in (1, 2, 11, 12, 69, 70, 71, 75, 76, 199, 200, 201):
+		bd = (b'Ab0-' * 60)[:n - 1] + b'z'
+		cases.append(_mp([(_h(('X-Custom', b'1')), b'--' + bd[:-1]), ([], bd + b'--\r\n')], bd))
+		cases.append({'k': 'mp_enc', 'digest': False, 'bd': bd.hex(), 'ps': [[_h(('X-Custom', b'1')), (b'--' + bd[:-1]).hex()]]})
+	# ---------------- (4) every name of every table the code consults, in three letter cases
+	allh = []
+	for name in reg['headers']:
+		v = HDR_VAL.get(name, b'x')
+		if name not in LIST_FIELDS and name != 'Transfer-Encoding':
+			allh.append([name, v.hex()])
+		for i, spelled in enumerate(_cases3(name)):
+			hs = [[spelled, v.hex()]] + ([] if i else _h(('X-Custom', b'1')))
+			cases.append(_req(hs, b'body', 'POST'))
+			cases.append(_resp(hs, b'body'))
+			if name != 'Transfer-Encoding':   # a part with a transfer coding is outside the statement (ASSUMPTIONS)
+				cases.append(_mp([(hs, b'content'), ([], b'x')], sub='form-data'))
+	cases.append(_req(allh, b'body', 'POST'))
+	cases.append(_resp(allh, b'body'))
+	cases.append(_mp([(allh, b'content')]))
+	for name in LIST_FIELDS:
+		for v in (HDR_VAL[name], {'Set-Cookie': b'a=b, c=d; Secure'}.get(name, b'Basic realm="x", Digest realm="y", nonce="z"')):
+			cases.append(_resp(_h((name, v), ('Server', b's')), b'body'))
+	for cte in (b'base64', b'quoted-printable', b'7bit', b'BASE64'):
+		cases.append(_mp([(_h(('Content-Transfer-Encoding', cte), ('Content-Type', b'text/plain')), b'aGVsbG8=\r\n=41=\r\n')]))
+		cases.append(_req(_h(('Content-Transfer-Encoding', cte)), b'aGVsbG8=\r\n=41=\r\n', 'POST'))
+	for mime in reg['mimes']:
+		for spelled in _cases3(mime):
+			ct = spelled.encode('ascii') + (b'; boundary=x' if mime.startswith('multipart/') else b'')
+			cases.append(_mp([(_h(('Content-Type', ct)), BIN), (_h(('Content-Type', ct + b'; charset=utf-16')), b'{"a": 1}')]))
+			cases.append(_req(_h(('Content-Type', ct)), BIN, 'POST'))
+			top, _, sub = spelled.partition('/')
+			if mime.startswith('multipart/'):
+				cases.append(_mp([(_h(('X-Custom', b'1')), BIN), ([], b'')], b'Ab0-z', sub if sub != '*' else 'x-unknown', top=top))
+			elif mime == 'application/json':
+				cases.extend({'k': 'json_rt', 'cs': cs, 'v': v, 'mt': spelled} for cs in (None, 'UTF-8', 'ISO8859-1') for v in (['\u20ac', '\ud800', {'a': 1.5}], 'x'))
+			elif mime == 'text/plain':
+				cases.extend({'k': 'plain_rt', 'cs': cs, 't': t, 'mt': spelled} for cs in (None, 'UTF-8', 'utf-16') for t in ('\ufeffa\r\n', 'e\u0301\u20ac'))
+			elif mime == 'application/x-www-form-urlencoded':
+				cases.extend({'k': 'form_rt', 'cs': cs, 'ps': ps, 'mt': spelled} for cs in (None, 'UTF-8') for ps in ([['a b', 'c d '], [' e', '+&=']], [['\u00e4', '\u00ff']]))
+			elif mime == 'message/http':
+				cases.append(_req(_h(('Host', b'h'), ('Cookie', b'a=b')), BIN, 'POST', mt=spelled))
+				cases.append(_resp(_h(('Server', b's')), BIN, mt=spelled))
+	for cs in CS_ALIASES:
+		for t in ('abc', '\ufeffabc', 'e\u0301', '\u00e9\u00ff', '\u20ac', '\r\n'):
+			cases.append({'k': 'plain_rt', 'cs': cs, 't': t})
+		cases.append({'k': 'json_rt', 'cs': cs, 'v': ['\u00e9', '\u20ac', 'a']})
+		cases.append({'k': 'form_rt', 'cs': cs, 'ps': [['a', '\u00e9 b'], ['c', '']]})
+	for code, reason in reg['statuses']:
+		for body in (b'', b'body\r\n'):
+			cases.append(_resp(_h(('Server', b's')), body, code, reason))
+		cases.append(_resp([], b'x', code, 'Custom %d' % code))
+	for method in reg['methods']:
+		for body in (b'', b'body\r\n'):
+			cases.append(_req(_h(('Host', b'h')), body, method, '*' if method.upper() == 'OPTIONS' else 'example.com:443' if method.upper() == 'CONNECT' else '/x'))
+	# ---------------- (6) multipart and message/http bodies written by another sender: names cased, fields ordered and spaced differently
+	for _ in range(400 if big else 120):
+		bd = _boundary(rng)
+		hv = rng.randrange(6)
+		ps = [[[h for h in hs if h[0] != 'Content-Length' or True], content] for hs, content in _parts(rng, bd)]
+		if rng.random() < 0.3:
+			ps.append([[[name, HDR_VAL.get(name, b'x').hex()] for name in rng.sample(reg['headers'], 3) if name not in LIST_FIELDS and name != 'Transfer-Encoding'], _content(rng, bd).hex()])
+		cases.append({'k': 'mp_dec', 'digest': rng.random() < 0.15, 'bd': bd.hex(), 'd': _write_mp(bd, ps, hv, rng.random() < 0.5).hex(), 'want': ps})
+	for _ in range(400 if big else 120):
+		m = _http_msg(rng)
+		if rng.random() < 0.3:
+			m['hs'] = m['hs'] + [[name, HDR_VAL.get(name, b'x').hex()] for name in rng.sample(reg['headers'], 2) if name not in LIST_FIELDS and name != 'Transfer-Encoding' and name not in [h[0] for h in m['hs']]]
+		cases.append({'k': 'http_dec', 'd': _write_http(m, rng.randrange(6)).hex(), 'want': m})
+	return cases
+
+
+def _spell(name, hv):
+	return [name, name.lower(), name.upper(), name, name.lower(), name.swapcase()][hv]
+
+
+def _write_block(hs, hv):
+	"""a header block as another sender writes it: names in another letter case, other spacing behind the colon, another field order"""
+	sep = [b': ', b':', b': ', b':  ', b':\t', b': '][hv]
+	hs = list(reversed(hs)) if hv in (1, 3, 4) else list(hs)
+	return b''.join(_spell(k, hv).encode('ascii') + sep + bytes.fromhex(v) + b'\r\n' for k, v in hs)
+
+
+def _write_mp(bd, ps, hv, crlf_end):
+	d = b'--' + bd
+	return b''.join(d + b'\r\n' + _write_block(hs, hv) + b'\r\n' + bytes.fromhex(content) + b'\r\n' for hs, content in ps) + d + (b'--\r\n' if crlf_end else b'--')
+
+
+def _write_http(m, hv):
+	if m['req']:
+		line = ('%s %s HTTP/%s' % (m['method'], m['uri'], m['proto'])).encode('ascii')
+	else:
+		line = ('HTTP/%s %d %s' % (m['proto'], m['status'], m['reason'])).encode('ascii')
+	return line + b'\r\n' + _write_block(m['hs'], hv) + b'\r\n' + bytes.fromhex(m['body'])
+
+
 # ------------------------------------------------------------------ implementation drivers
 def _body(d, coding=None, cs=None):
 	from httoop import Body
@@ -588,10 +920,10 @@ def _items(headers):
 	return [[k, headers.getbytes(k).hex()] for k in headers.keys()]
 
 
-def _mp_ct(sub, bd):
+def _mp_ct(sub, bd, top='multipart'):
 	from httoop import Body
 	body = Body()
-	body.mimetype = 'multipart/%s' % sub
+	body.mimetype = '%s/%s' % (top, sub)
 	ct = body.mimetype
 	ct.boundary = bd.decode('ISO8859-1')
 	return ct
@@ -695,6 +1027,12 @@ def observe(c):
 			return res
 		if k == 'wire':
 			return _observe_wire(c)
+		if k == 'wire_rf':
+			return _observe_wire_rf(c)
+		if k == 'wire_seq':
+			return _observe_wire_seq(c)
+		if k == 'state':
+			return {'checks': _STATE[c['s']](c)}
 		if k == 'plain_dec':
 			try:
 				lookup('text/plain').decode(bytes.fromhex(c['d']), c['cs'])
@@ -711,7 +1049,7 @@ def observe(c):
 			return {'ok': True}
 		if k == 'json_rt':
 			b = Body()
-			b.mimetype = 'application/json' if c['cs'] is None else 'application/json; charset=%s' % c['cs']
+			b.mimetype = c.get('mt', 'application/json') if c['cs'] is None else '%s; charset=%s' % (c.get('mt', 'application/json'), c['cs'])
 			b.encode(c['v'])
 			enc = bytes(b)
 			b2 = Body(enc)
@@ -721,7 +1059,7 @@ def observe(c):
 			return {'enc': enc.hex(), 'orig': _jcanon(c['v']), 'back': _jcanon(back), 'direct': _jcanon(direct)}
 		if k == 'plain_rt':
 			b = Body()
-			b.mimetype = 'text/plain' if c['cs'] is None else 'text/plain; charset=%s' % c['cs']
+			b.mimetype = c.get('mt', 'text/plain') if c['cs'] is None else '%s; charset=%s' % (c.get('mt', 'text/plain'), c['cs'])
 			try:
 				b.encode(c['t'])
 			except Exception as exc:
@@ -740,7 +1078,7 @@ def observe(c):
 			return {'enc': enc.hex(), 'expect_enc': c['t'].encode(c['cs'] or 'UTF-8').hex(), 'back': _jcanon(back), 'orig': _jcanon(c['t']), 'str': _jcanon(str(b2)), 'direct': _jcanon(direct)}
 		if k == 'form_rt':
 			b = Body()
-			b.mimetype = 'application/x-www-form-urlencoded' if c['cs'] is None else 'application/x-www-form-urlencoded; charset=%s' % c['cs']
+			b.mimetype = c.get('mt', 'application/x-www-form-urlencoded') if c['cs'] is None else '%s; charset=%s' % (c.get('mt', 'application/x-www-form-urlencoded'), c['cs'])
 			ps = [tuple(p) for p in c['ps']]
 			try:
 				b.encode(ps)
@@ -778,7 +1116,7 @@ def observe(c):
 			return _mp_decode_obs(lookup('multipart/%s' % sub), bytes.fromhex(c['d']), ct)
 		if k == 'mp_rt':
 			b = Body()
-			ct = _mp_ct(c['sub'], bytes.fromhex(c['bd']))
+			ct = _mp_ct(c['sub'], bytes.fromhex(c['bd']), c.get('top', 'multipart'))
 			b.mimetype = ct
 			parts = _part_bodies(c['ps'])
 			want = [[_items(p.headers), bytes(p).hex()] for p in parts]
@@ -787,7 +1125,7 @@ def observe(c):
 			enc = bytes(b)
 			b2 = Body(enc)
 			b2.mimetype = bytes(b.mimetype)
-			res = {'enc': enc.hex(), 'want': want, 'blocks': blocks, 'ct': bytes(b.mimetype).hex(), 'default': lookup('multipart/%s' % c['sub']).default_content_type}
+			res = {'enc': enc.hex(), 'want': want, 'blocks': blocks, 'ct': bytes(b.mimetype).hex(), 'default': lookup('multipart/%s' % c['sub'].lower()).default_content_type}
 			try:
 				back = b2.decode()
 			except Exception as exc:
@@ -801,12 +1139,13 @@ def observe(c):
 		if k == 'http_rt':
 			m = _http_build(c)
 			b = Body()
-			b.mimetype = 'message/http'
+			b.mimetype = c.get('mt', 'message/http')
+			before = _mvalue(m)
 			b.encode(m)
 			enc = bytes(b)
-			res = {'enc': enc.hex(), 'sl': bytes(m).hex(), 'hb': bytes(m.headers).hex(), 'body': bytes(m.body).hex(), 'hs': _items(m.headers)}
+			res = {'enc': enc.hex(), 'sl': bytes(m).hex(), 'hb': bytes(m.headers).hex(), 'body': bytes(m.body).hex(), 'hs': _items(m.headers), 'untouched': _mvalue(m) == before}
 			b2 = Body(enc)
-			b2.mimetype = 'message/http'
+			b2.mimetype = c.get('mt', 'message/http')
 			try:
 				back = b2.decode()
 			except Exception as exc:
@@ -898,6 +1237,403 @@ def _observe_wire(c):
 	return res
 
 
+# ------------------------------------------------------------------ drivers of the input classes
+def _mvalue(m):
+	return [type(m).__name__, bytes(m).hex(), sorted(_items(m.headers)), bytes(m.body).hex()]
+
+
+def _comp(fam, d, level=6):
+	import gzip
+	import zlib
+	return gzip.compress(d, level, mtime=0) if fam == GZ else zlib.compress(d, level)
+
+
+def _payload(c):
+	"""the coded octets of the content, made by the library ('lib': one stream per piece, as its composer does; 'compress': Body.compress())
+	or by another sender (CPython at some level, a gzip member with a file name and a time stamp, several members / streams)"""
+	d = bytes.fromhex(c['d'])
+	fam, enc = c['c'], c['enc']
+	if enc == 'lib':
+		return b''.join(_body(d, c.get('cn', fam)))
+	if enc == 'compress':
+		b = _body(d, c.get('cn', fam))
+		b.compress()
+		return bytes(b)
+	if enc == 'named' and fam == GZ:
+		import gzip
+		out = io.BytesIO()
+		with gzip.GzipFile(filename='report final.txt', fileobj=out, mode='wb', compresslevel=1, mtime=1234567890) as fd:
+			fd.write(d)
+		return out.getvalue()
+	if enc == 'multi':
+		k = max(1, len(d) // 3)
+		return b''.join(_comp(fam, d[i:i + k]) for i in range(0, len(d), k)) or _comp(fam, d)
+	return _comp(fam, d, {'py0': 0, 'py9': 9}.get(enc, 6))
+
+
+def _frame(payload, fr, ext=False, fmt='%x', trailer=False):
+	"""Content-Length framing, or chunks of the given size(s) (the sizes are used in turn, the last one repeatedly)"""
+	if fr[0] == 'cl':
+		return payload
+	sizes = fr[1] if isinstance(fr[1], list) else [fr[1]]
+	out, i, k = b'', 0, 0
+	while i < len(payload):
+		n = max(1, sizes[min(k, len(sizes) - 1)])
+		piece = payload[i:i + n]
+		out += (fmt % len(piece)).encode('ascii') + (b';name=value' if ext else b'') + b'\r\n' + piece + b'\r\n'
+		i, k = i + n, k + 1
+	return out + b'0\r\n' + (b'X-Checksum: 1\r\n' if trailer else b'') + b'\r\n'
+
+
+def _head(req, cn, cs, fr, n, hv, trailer=False):
+	"""start line and header block written by the harness; hv: letter case of the names, order of the fields, folding and blanks around the coding name"""
+	fields = []
+	if req:
+		fields.append(('Host', b'h'))
+	if cs is not None:
+		fields.append(('Content-Type', b'text/plain; charset=' + cs.encode('ascii')))
+	ce = ('Content-Encoding', cn.encode('ascii'))
+	framing = ('Content-Length', b'%d' % n) if fr[0] == 'cl' else ('Transfer-Encoding', b'chunked')
+	fields += [ce, framing] if hv in (0, 1, 4) else [framing, ce]
+	if trailer and fr[0] != 'cl':
+		fields.append(('Trailer', b'X-Checksum'))
+	if hv == 5:
+		fields = [('X-Before', b'gzip, deflate')] + fields + [('X-After', b'Content-Encoding: identity')]
+	out = b'POST /x HTTP/1.1\r\n' if req else b'HTTP/1.1 200 OK\r\n'
+	for name, value in fields:
+		name = [name, name.lower(), name.upper(), name, name, name.swapcase()][hv]
+		if hv == 3 and name == 'Content-Encoding':
+			out += name.encode('ascii') + b':\r\n\t ' + value + b'  \r\n'
+		else:
+			out += name.encode('ascii') + (b':' if hv == 2 else b': ') + value + b'\r\n'
+	return out + b'\r\n'
+
+
+def _machine(req):
+	from httoop import Request
+	from httoop.client import ClientStateMachine
+	from httoop.server import ServerStateMachine
+	if req:
+		return ServerStateMachine('http', 'h', 80)
+	sm = ClientStateMachine()
+	sm.request = Request('GET', '/x')
+	return sm
+
+
+def _feed(sm, pieces, req):
+	"""parse the pieces one after the other on one machine; the delivered messages, or the error"""
+	from httoop.status import StatusException as HTTPStatusException
+	out = []
+	try:
+		for piece in pieces:
+			out.extend(sm.parse(piece))
+	except HTTPStatusException as exc:
+		desc = str(getattr(exc, 'description', ''))
+		if int(exc.status) == 400 and desc.startswith('Invalid') and desc.endswith('data.'):
+			return None, 'decode'
+		if int(exc.status) == 400 and "codec can't decode" in desc:
+			return None, 'unicode'
+		return None, 'http:%d:%s' % (int(exc.status), desc[:80])
+	except Exception as exc:
+		return None, 'escape:%s' % type(exc).__name__
+	return [(m[0] if req else m) for m in out], None
+
+
+def _cut(wire, feed):
+	return [wire] if not feed else [wire[i:i + feed] for i in range(0, len(wire), feed)]
+
+
+def _observe_wire_rf(c):
+	payload = _payload(c)
+	wire = _head(c['req'], c.get('cn', c['c']), c['cs'], c['fr'], len(payload), c['hv'], c.get('tr')) + _frame(payload, c['fr'], c.get('ext'), c.get('fmt', '%x'), c.get('tr'))
+	res = {'payload': payload.hex() if len(payload) < 20000 else None, 'wire': len(wire)}
+	msgs, err = _feed(_machine(c['req']), _cut(wire, c.get('feed')), c['req'])
+	if err:
+		res['err'] = err
+		return res
+	if len(msgs) != 1:
+		res['err'] = 'delivered:%d' % len(msgs)
+		return res
+	res['out'] = bytes(msgs[0].body).hex()
+	res['cl'] = msgs[0].headers.get('Content-Length')
+	return res
+
+
+def _observe_wire_seq(c):
+	wires = []
+	for m in c['msgs']:
+		payload = _payload(m) if m['c'] else bytes.fromhex(m['d'])
+		if m['c']:
+			head = _head(c['req'], m['c'], 'UTF-8', m['fr'], len(payload), 0)
+		else:
+			head = (b'POST /x HTTP/1.1\r\nHost: h\r\n' if c['req'] else b'HTTP/1.1 200 OK\r\n') + (b'Content-Length: %d\r\n\r\n' % len(payload) if m['fr'][0] == 'cl' else b'Transfer-Encoding: chunked\r\n\r\n')
+		wires.append(head + _frame(payload, m['fr']))
+	pieces = wires if c['feed'] == 'each' else _cut(b''.join(wires), 0 if c['feed'] == 'all' else c['feed'])
+	msgs, err = _feed(_machine(c['req']), pieces, c['req'])
+	res = {'fresh': []}
+	for w in wires:   # what a fresh machine delivers for each message alone
+		one, e = _feed(_machine(c['req']), [w], c['req'])
+		res['fresh'].append(e if e else [bytes(x.body).hex() for x in one])
+	if err:
+		res['err'] = err
+		return res
+	res['outs'] = [bytes(x.body).hex() for x in msgs]
+	res['ce'] = [x.headers.get('Content-Encoding') for x in msgs]
+	return res
+
+
+def _pieces_of(fam, coded):
+	"""the contents of the streams of a coded octet string, stream by stream (a gzip member carries the time of day: coded octets are not compared directly)"""
+	st = _streams(fam, coded)
+	return None if st is None else [r.hex() for _, r in st]
+
+
+def _decodes_to(fam, coded):
+	"""CPython's reading of a sequence of streams of the coding"""
+	st = _streams(fam, coded)
+	return None if st is None else b''.join(r for _, r in st).hex()
+
+
+def _state_body(c):
+	"""one Body object: composed twice, read in between, compressed / decompressed under both codings, given other content"""
+	d, d2 = bytes.fromhex(c['d']), bytes.fromhex(c['d2'])
+	other = ZL if c['c'] == GZ else GZ
+	b = _body(d, c['c'], 'UTF-8')
+	ck = []
+	w1 = bytes(b)
+	ck.append(['composed twice', _pieces_of(c['c'], bytes(b)), _pieces_of(c['c'], w1)])
+	ck.append(['composed content', _decodes_to(c['c'], w1), d.hex()])
+	b.read(3)
+	ck.append(['composed with the position behind the start', _pieces_of(c['c'], bytes(b)), _pieces_of(c['c'], w1)])
+	ck.append(['iterated with the position behind the start', _pieces_of(c['c'], b''.join(b)), _pieces_of(c['c'], w1)])
+	b.seek(0, 2)
+	b.compress()
+	ck.append(['compress() with the position at the end', _decodes_to(c['c'], bytes(b)), d.hex()])
+	ck.append(['coding after compress()', repr(b.content_encoding), 'None'])
+	b.content_encoding = c['c']
+	b.read(1)
+	b.decompress()
+	ck.append(['decompress() after compress() on the same object', bytes(b).hex(), d.hex()])
+	b.content_encoding = other
+	b.read(2)
+	b.compress()
+	ck.append(['compress() under the other coding', _decodes_to(other, bytes(b)), d.hex()])
+	b.content_encoding = other
+	b.decompress()
+	ck.append(['decompress() under the other coding', bytes(b).hex(), d.hex()])
+	b.content_encoding = c['c']
+	b.compress()
+	b.content_encoding = c['c']
+	b.compress()   # coded twice ...
+	b.content_encoding = c['c']
+	b.decompress()
+	b.content_encoding = c['c']
+	b.decompress()   # ... and decoded twice
+	ck.append(['coded twice, decoded twice', bytes(b).hex(), d.hex()])
+	b.set(d2)
+	b.content_encoding = c['c']
+	ck.append(['other content on the same object', _decodes_to(c['c'], bytes(b)), d2.hex()])
+	fresh = _body(d2, c['c'], 'UTF-8')
+	ck.append(['same as a fresh object', _pieces_of(c['c'], bytes(b)), _pieces_of(c['c'], bytes(fresh))])
+	return ck
+
+
+def _state_shared(c):
+	"""one Body object given to two messages; the messages composed one after the other and twice; received on one machine"""
+	from httoop import Body, Request, Response
+	from httoop.semantic.response import ComposedResponse
+	d = bytes.fromhex(c['d'])
+	other = ZL if c['c'] == GZ else GZ
+	shared = Body(d)
+	shared.read(2)
+	ck = []
+	req = Request('GET', '/x')
+	sm = _machine(False)
+	for coding in (c['c'], other, c['c']):
+		resp = Response()
+		resp.body = shared
+		resp.headers['Content-Encoding'] = coding
+		comp = ComposedResponse(resp, req)
+		comp.prepare()
+		wire = b''.join(comp)
+		again = b''.join(comp)
+		ck.append(['composed twice (%s)' % coding, _pieces_of(coding, _dechunk(again.partition(b'\r\n\r\n')[2])), _pieces_of(coding, _dechunk(wire.partition(b'\r\n\r\n')[2]))])
+		msgs, err = _feed(sm, [wire], False)
+		ck.append(['delivered by the machine used before (%s)' % coding, err or [bytes(m.body).hex() for m in msgs], [d.hex()]])
+	ck.append(['the shared body afterwards', bytes(shared).hex(), d.hex()])
+	return ck
+
+
+def _state_codec(c):
+	"""one Body object encoded and decoded several times with values, media types and charsets changed through every public way"""
+	from httoop import Body
+	ck = []
+	b = Body()
+	b.mimetype = 'application/json'
+	for v in (c['v1'], c['v2'], c['v1']):
+		b.encode(v)
+		f = Body()
+		f.mimetype = 'application/json'
+		f.encode(v)
+		ck.append(['json encoded on a used object', bytes(b).hex(), bytes(f).hex()])
+		b.read(1)
+		ck.append(['json decoded', _jcanon(b.decode()), _jcanon(v)])
+		ck.append(['json decoded again', _jcanon(b.decode()), _jcanon(v)])
+	for v in (1, True, 1.0, [0], [False], [0.0], '1', 'e\u0301', '\u00e9', {'a': 1}, {'a': True}):   # values that compare equal to the one encoded before
+		b.encode(v)
+		ck.append(['json value after one that compares equal', _jcanon(b.decode()), _jcanon(v)])
+	for how, cs, t in (('mimetype', 'utf-16', c['t1']), ('encoding', 'ISO8859-1', c['t2']), ('mimetype', 'UTF-8', c['t1']), ('headers', 'utf-16-be', c['t1']), ('encoding', 'utf-8', c['t2'])):
+		if how == 'mimetype':
+			b.mimetype = 'text/plain; charset=%s' % cs
+		elif how == 'headers':
+			b.headers['Content-Type'] = 'text/plain; charset=%s' % cs
+		else:
+			b.mimetype = 'text/plain'
+			b.encoding = cs
+		b.encode(t)
+		ck.append(['text encoded after the charset was set through %s (%s)' % (how, cs), bytes(b).hex(), t.encode(cs).hex()])
+		b.read(2)
+		ck.append(['text decoded', _jcanon(b.decode()), _jcanon(t)])
+		ck.append(['str()', _jcanon(str(b)), _jcanon(t)])
+	# the value stays, the charset changes: encode() without argument composes the stored value again
+	b.mimetype = 'text/plain; charset=UTF-8'
+	b.encode(c['t1'])
+	b.encoding = 'utf-16-le'
+	b.encode()
+	ck.append(['stored value encoded again under another charset', bytes(b).hex(), c['t1'].encode('utf-16-le').hex()])
+	ps = [tuple(p) for p in c['ps']]
+	if not _low_unsafe(b''.join(a.encode('ISO8859-1') + v.encode('ISO8859-1') for a, v in ps), set(range(0x100)) - set(range(0x10))):   # not the known one-digit escapes
+		for cs in ('ISO8859-1', 'UTF-8'):
+			b.mimetype = 'application/x-www-form-urlencoded; charset=%s' % cs
+			b.encode(ps)
+			ck.append(['form decoded on a used object', [list(p) for p in b.decode()], [list(p) for p in ps]])
+			f = Body()
+			f.mimetype = 'application/x-www-form-urlencoded; charset=%s' % cs
+			f.encode(ps)
+			ck.append(['form encoded on a used object', bytes(b).hex(), bytes(f).hex()])
+	# decode(data) replaces the content
+	b.mimetype = 'application/json'
+	ck.append(['decode(other octets)', _jcanon(b.decode(b'[1, "x"]')), _jcanon([1, 'x'])])
+	ck.append(['content after decode(other octets)', bytes(b).hex(), b'[1, "x"]'.hex()])
+	return ck
+
+
+def _state_mp(c):
+	"""the same part objects (positions behind the start) in two multipart bodies with different boundaries; encoded twice; parts changed in between"""
+	from httoop import Body
+	from httoop.codecs import lookup
+	codec = lookup('multipart/mixed')
+	bd, bd2 = bytes.fromhex(c['bd']), bytes.fromhex(c['bd2'])
+	ck = []
+
+	def val(parts):
+		return [[sorted(_items(p.headers)), bytes(p).hex()] for p in parts]
+
+	def want(parts):
+		out = []
+		for hs, content in val(parts):
+			hs = dict(hs)
+			hs.setdefault('Content-Type', codec.default_content_type.encode('ascii').hex())
+			out.append([sorted(hs.items()), content])
+		return out
+
+	def got(parts):
+		return [[sorted(dict(hs).items()), content] for hs, content in val(parts)]
+	parts = _part_bodies(c['ps'])
+	for p in parts:
+		p.read(2)
+	before = val(parts)
+	enc1 = codec.encode(parts, None, _mp_ct('mixed', bd))
+	ck.append(['encoded twice', codec.encode(parts, None, _mp_ct('mixed', bd)).hex(), enc1.hex()])
+	ck.append(['same as fresh parts', enc1.hex(), codec.encode(_part_bodies(c['ps']), None, _mp_ct('mixed', bd)).hex()])
+	ck.append(['parts untouched by encode', val(parts), before])
+	ck.append(['decoded', got(codec.decode(enc1, None, _mp_ct('mixed', bd))), want(parts)])
+	enc2 = codec.encode(parts, None, _mp_ct('mixed', bd2))
+	ck.append(['the same parts under another boundary', got(codec.decode(enc2, None, _mp_ct('mixed', bd2))), want(parts)])
+	# change the parts through the public ways
+	newc = bytes.fromhex(c['newc'])
+	parts[0].headers['X-New'] = b'added'
+	parts[-1].headers.pop('X-Custom', None)
+	parts[0].set(newc)
+	if len(parts) > 1:
+		del parts[1:2]
+	final = [[_items(p.headers), bytes(p).hex()] for p in parts]
+	enc3 = codec.encode(parts, None, _mp_ct('mixed', bd))
+	ck.append(['changed parts: same as fresh parts', enc3.hex(), codec.encode(_part_bodies(final), None, _mp_ct('mixed', bd)).hex()])
+	if b'--' + bd not in newc:
+		ck.append(['changed parts decoded', got(codec.decode(enc3, None, _mp_ct('mixed', bd))), want(_part_bodies(final))])
+	# through one Body object, twice; decoded twice
+	b = Body()
+	b.mimetype = _mp_ct('mixed', bd)
+	b.encode(_part_bodies(c['ps']))
+	first = bytes(b)
+	b.encode(parts)
+	ck.append(['Body.encode() on a used object', bytes(b).hex(), enc3.hex()])
+	b2 = Body(first)
+	b2.mimetype = bytes(b.mimetype)
+	b2.read(5)
+	ck.append(['Body.decode()', got(b2.decode()), want(_part_bodies(c['ps']))])
+	ck.append(['Body.decode() again', got(b2.decode()), want(_part_bodies(c['ps']))])
+	return ck
+
+
+def _state_http(c):
+	"""one message encoded twice with message/http, changed through the public ways and encoded again; one Body object used for two messages"""
+	from httoop import Body
+	from httoop.codecs import lookup
+	codec = lookup('message/http')
+	ck = []
+	m = _http_build(c['m'])
+	m.body.read(1)
+	before = _mvalue(m)
+	enc1 = codec.encode(m)
+	ck.append(['message untouched by encode', _mvalue(m), before])
+	ck.append(['encoded twice', codec.encode(m).hex(), enc1.hex()])
+	ck.append(['same as a fresh message', enc1.hex(), codec.encode(_http_build(c['m'])).hex()])
+	back = codec.decode(enc1)
+	ck.append(['decoded', _mvalue(back), before])
+	ck.append(['decoded message encoded again', codec.encode(back).hex(), enc1.hex()])
+	final = dict(c['m'])
+	hs = [list(h) for h in final['hs']]
+	m.headers[c['add'][0]] = bytes.fromhex(c['add'][1])
+	hs = [h for h in hs if h[0] != c['add'][0]] + [list(c['add'])]
+	if c['drop'] and len(hs) > 1:
+		if len(hs) % 2:
+			del m.headers[hs[0][0]]
+		else:
+			m.headers.pop(hs[0][0])
+		hs = hs[1:]
+	m.body = bytes.fromhex(c['newbody'])
+	final.update(hs=hs, body=c['newbody'])
+	if final['req']:
+		m.method = 'PUT'
+		m.uri = '/changed?x=1'
+		final.update(method='PUT', uri='/changed?x=1')
+	else:
+		m.status = 404
+		final.update(status=404, reason='Not Found')
+	fresh = _http_build(final)
+	enc2 = codec.encode(m)
+	ck.append(['changed message: same as a fresh message', enc2.hex(), codec.encode(fresh).hex()])
+	ck.append(['changed message decoded', _mvalue(codec.decode(enc2)), _mvalue(fresh)])
+	b = Body()
+	b.mimetype = 'message/http'
+	b.encode(_http_build(c['m']))
+	b.read(3)
+	b.encode(m)
+	ck.append(['Body.encode() on a used object', bytes(b).hex(), enc2.hex()])
+	b2 = Body(enc1)
+	b2.mimetype = 'message/http'
+	b2.read(4)
+	ck.append(['Body.decode()', _mvalue(b2.decode()), before])
+	ck.append(['Body.decode() again', _mvalue(b2.decode()), before])
+	ck.append(['Body.decode(other octets)', _mvalue(b2.decode(enc2)), _mvalue(fresh)])
+	return ck
+
+
+_STATE = {'body': _state_body, 'shared': _state_shared, 'codec': _state_codec, 'mp': _state_mp, 'http': _state_http}
+
+
 # ------------------------------------------------------------------ Coq literals
 def _hdrs(items):
 	return L([P(X(k.encode('ascii')), X(bytes.fromhex(v))) for k, v in items], '(bytes * bytes)')
@@ -919,9 +1655,17 @@ def coq_case(c, o):
 	if len(c.get('d', '')) > 18000:
 		return None    # a single list literal of more than ~30k elements overflows Coq's stack: oracle-only
 	t = _coq_case(c, o)
-	if isinstance(t, str) and len(t) > 70000:
+	if isinstance(t, str) and (len(t) > 70000 or _max_literal(t) > 20000):
 		return None    # literal too large for one vm_compute (stack): the case stays oracle-only
+	if isinstance(t, list):
+		t = [x for x in t if len(x) <= 70000 and _max_literal(x) <= 20000]
 	return t
+
+
+def _max_literal(t):
+	"""hex digits of the longest octet-string literal of a term (one of more than ~10000 octets overflows Coq's stack)"""
+	import re
+	return max([len(m) for m in re.findall(r'"([0-9a-f]*)"', t)] or [0])
 
 
 def _coq_case(c, o):
@@ -957,6 +1701,17 @@ def _coq_case(c, o):
 		payload = bytes.fromhex(o['payload'])
 		tc = L([P(X(bytes.fromhex(raw)), X(bytes.fromhex(coded))) for coded, raw in o['streams']], '(bytes * bytes)')
 		return '(let p := %s in CWire %s %s %s %s p %s %s %s %s)' % ((X(payload), _coding(c['c']), CHARSETS[c['cs']], X(bytes.fromhex(c['d'])), tc) + _tables(c['c'], payload, 'p') + (r,))
+	if k == 'wire_rf':
+		# the delivered body is Body.decompress() of the coded octets, however they were framed
+		if c['cs'] not in CHARSETS or o.get('payload') is None or len(o['payload']) > 18000:
+			return None
+		r = _cres(o)
+		if r is None:
+			return 'CBoundary [] true'
+		d = bytes.fromhex(o['payload'])
+		return '(let d := %s in CBodyDec %s %s d %s %s %s %s)' % ((X(d), _coding(c['c']), CHARSETS[c['cs']]) + _tables(c['c'], d, 'd') + (r,))
+	if k in ('wire_seq', 'state'):
+		return None
 	if k in ('plain_dec', 'json_dec'):
 		cs = c['cs'] or ('UTF-8' if k == 'plain_dec' else 'ascii')
 		if _is_escape(o):
@@ -1086,12 +1841,38 @@ def oracle(c, o):
 		if o['cl'] != str(len(c['d']) // 2):
 			return '%s: delivered Content-Length %r for %d octets' % (cls, o['cl'], len(c['d']) // 2)
 		return None
+	if k == 'wire_rf':
+		cls = 'coded message framed by another sender (%s, %s)' % (c.get('cn', c['c']), 'Content-Length' if c['fr'][0] == 'cl' else 'chunks that do not end where a stream ends' if c['enc'] != 'lib' or not isinstance(c['fr'][1], list) else 'chunked')
+		if 'err' in o:
+			return '%s: parsing raised %s (%d octets of content, coded by %s, framing %r, header spelling %d, received in pieces of %r)' % (cls, o['err'], len(c['d']) // 2, c['enc'], c['fr'], c['hv'], c.get('feed'))
+		if o['out'] != c['d']:
+			return '%s: delivered %d octets for %d sent (coded by %s, framing %r)' % (cls, len(o['out']) // 2, len(c['d']) // 2, c['enc'], c['fr'])
+		# with Content-Length framing the delivered Content-Length field stays the length of the coded octets: not part of the statement
+		if c['fr'][0] != 'cl' and o['cl'] != str(len(c['d']) // 2):
+			return '%s: delivered Content-Length %r for %d octets' % (cls, o['cl'], len(c['d']) // 2)
+		return None
+	if k == 'wire_seq':
+		want = [m['d'] for m in c['msgs']]
+		if 'err' in o:
+			return 'several messages on one machine: parsing raised %s (alone: %r)' % (o['err'], o['fresh'])
+		if o['outs'] != want:
+			return 'several messages on one machine: delivered bodies %r, sent %r' % ([x[:40] for x in o['outs']], [x[:40] for x in want])
+		if o['fresh'] != [[x] for x in want]:
+			return 'coded message on a fresh machine: delivered %r, sent %r' % (o['fresh'], want)
+		return None
+	if k == 'state':
+		for label, got, want in o['checks']:
+			if got != want:
+				return 'object used more than once (%s): %s: %s, a fresh object gives %s' % (c['s'], label, str(got)[:120], str(want)[:120])
+		return None
+	if k in ('mp_dec', 'http_dec') and 'want' in c:
+		return _oracle_written(c, o)
 	if k == 'json_rt':
 		if 'err' in o:
 			return 'json round trip raised %s' % o['err']
 		if o['back'] != o['orig'] or o['direct'] != o['orig']:
 			return 'json: decode(encode(v)) != v: %s -> %r' % (o['enc'][:80], o['back'])
-		if _nonascii(bytes.fromhex(o['enc'])):
+		if _nonascii(bytes.fromhex(o['enc'])) and not _wide_charset(c['cs']):
 			return 'json: encoded value is not ASCII: %s' % o['enc'][:80]
 		return None
 	if k == 'plain_rt':
@@ -1134,9 +1915,13 @@ def oracle(c, o):
 	if k == 'http_rt':
 		if 'enc' not in o:
 			return 'message/http: encoding raised %s' % (o.get('err'),)
-		if any(k2.title() in ('Transfer-Encoding', 'Set-Cookie', 'Www-Authenticate', 'Proxy-Authenticate') for k2, _ in c['hs']):
+		if any(k2.title() == 'Transfer-Encoding' for k2, _ in c['hs']):
 			return None
+		if any(k2.title() in ('Set-Cookie', 'Www-Authenticate', 'Proxy-Authenticate') and (k2.lower() + ':').encode('ascii') not in bytes.fromhex(o['hb']).lower() for k2, _ in c['hs']):
+			return None    # a list field whose value is not an element list of that field is not composed at all: outside the statement
 		cls = 'message/http message without header fields' if not o['hs'] else 'message/http'
+		if not o.get('untouched', True):
+			return '%s: encoding changed the message object itself' % cls
 		if 'err' in o:
 			return '%s: decode(encode(m)) raised %s: %s' % (cls, o['err'], o['enc'][:120])
 		b = o['back']
@@ -1150,6 +1935,54 @@ def oracle(c, o):
 	if _is_escape(o) and k not in ('http_dec', 'mp_dec', 'body_dec', 'codec_dec'):
 		return '%s: unexpected exception %s' % (k, o)
 	return None
+
+
+def _oracle_written(c, o):
+	"""a multipart body / an embedded message written by another sender (names in another letter case, other field order and spacing) is read as what was written"""
+	def fields(hs, default=None):
+		out = {k.lower(): bytes.fromhex(v).strip().hex() for k, v in hs}
+		if default is not None:
+			out.setdefault('content-type', default.encode('ascii').hex())
+		return out
+	if c['k'] == 'mp_dec':
+		from httoop.codecs import lookup
+		d = b'--' + bytes.fromhex(c['bd'])
+		for hs, content in c['want']:
+			if d in bytes.fromhex(content) or any(d in bytes.fromhex(v) or k.title() in ('Transfer-Encoding', 'Set-Cookie', 'Www-Authenticate', 'Proxy-Authenticate') for k, v in hs):
+				return None
+		if 'parts' not in o:
+			return 'multipart body written by another sender: decoding raised %s: %s' % (o.get('derr'), c['d'][:160])
+		default = lookup('multipart/digest' if c['digest'] else 'multipart/mixed').default_content_type
+		want = [[fields(hs, default), content] for hs, content in c['want']]
+		got = [[fields(hs), content] for hs, content in o['parts']]
+		if got != want:
+			return 'multipart body written by another sender: read as %r, written %r' % (got, want)
+		return None
+	m = c['want']
+	if any(k.title() in ('Transfer-Encoding', 'Set-Cookie', 'Www-Authenticate', 'Proxy-Authenticate') for k, _ in m['hs']):
+		return None
+	if 'back' not in o:
+		return 'embedded message written by another sender: decoding raised %s: %s' % (o.get('err'), c['d'][:160])
+	b = o['back']
+	line = bytes.fromhex(c['d']).split(b'\r\n', 1)[0].hex()
+	if b['req'] != m['req'] or b['sl'] != line + b'\r\n'.hex():
+		return 'embedded message written by another sender: start line %s read as %s' % (line, b['sl'])
+	if fields(b['hs']) != fields(m['hs']):
+		return 'embedded message written by another sender: header fields read as %r, written %r' % (b['hs'], m['hs'])
+	if b['body'] != m['body']:
+		return 'embedded message written by another sender: body %s read as %s' % (m['body'][:60], b['body'][:60])
+	return None
+
+
+def _wide_charset(cs):
+	"""a declared charset in which ASCII text is not written as the ASCII octets (UTF-16 / UTF-32 families, UTF-8 with signature); never one of UTF-8, ISO8859-1, ascii, None"""
+	import codecs
+	if cs is None:
+		return False
+	try:
+		return 'abc"\\'.encode(codecs.lookup(cs).name) != b'abc"\\'
+	except (LookupError, UnicodeError):
+		return False
 
 
 def _low_unsafe(data, safe):
@@ -1170,6 +2003,11 @@ def classify(c, o, fail):
 	return None
 
 
+def jdump_key(c):
+	import json
+	return json.dumps(c, sort_keys=True, default=repr)
+
+
 def nontrivial(c, o):
 	if 'skip' in o:
 		return None
@@ -1177,6 +2015,8 @@ def nontrivial(c, o):
 	cls = 'err:' + str(o.get('err') or o.get('derr')) if (o.get('err') or o.get('derr')) else 'ok'
 	if k in ('boundary', 'plain_dec', 'json_dec'):
 		return (k, c.get('cs'), c.get('bd') or c.get('d'), o.get('ok'))
+	if k in ('wire_rf', 'wire_seq', 'state'):
+		return (k, jdump_key(c), cls)
 	return (k, c.get('c'), c.get('cs'), c.get('d'), c.get('bd'), repr(c.get('ps')), repr(c.get('v')), c.get('t'), repr(c.get('hs')), c.get('body'), cls)
 
 
